@@ -299,6 +299,7 @@ impl Check for C03 {
                 out.count("sites_without_consumer", 1);
             }
             out.distinct.push(entropy::fnv(0, serde_json::to_string(&(&s.spec.faults, &s.spec.taps, cfg.base.seed)).unwrap().as_bytes()));
+            count_honest_errs(&mut out, &s.spec, &run);
             out.violations.extend(c03_oracle(&s, &run));
             if out.samples.is_empty() && !s.victims.is_empty() {
                 out.samples.push(json!({"configuration": cfg.base.sample(), "corrupted": cfg.c, "site": s.kind, "fault": describe_fault(&s.spec), "victims": s.victims,
